@@ -2459,6 +2459,25 @@ class BDD(dd._abc.BDD[_Ref]):
         n = len(var2level)
         level_map = dict()
         # level_map[n] = len(self.vars)
+        if levels:
+            # Refuse before declaring anything:
+            # a refusal half-way would leave
+            # a gap in the levels of `self`.
+            if sorted(var2level.values()) != list(range(n)):
+                raise ValueError(
+                    'the levels are not a permutation '
+                    f'of 0..{n - 1}: {var2level}')
+            for var, i in var2level.items():
+                j = self.vars.get(var)
+                if j is None:
+                    j = i
+                    var_ = self._level_to_var.get(i)
+                else:
+                    var_ = var
+                if j != i or var_ not in (None, var):
+                    raise ValueError(
+                        f'variable "{var}" cannot be '
+                        f'declared at level {i}: {self.vars}')
         for var, i in var2level.items():
             if not (0 <= i < n):
                 raise AssertionError((i, n))
